@@ -267,6 +267,14 @@ def c06(tier: str) -> int:
                              'op': ['addbad', name, kind, pos], 'kind': 'callback', 'k': None,
                              'then': ['add', name, 'xml']})
                 ncorr += 1
+    # references to ids that exist, but only in another installed lexicon (a:1)
+    for name in ('Rr', 'Ru'):
+        for kind in ('sense_synset_foreign', 'synset_rel_foreign', 'sense_rel_foreign'):
+            for pos in range(3):
+                jobs.append({'mode': 'fault', 'snap': snaps['S1'],
+                             'op': ['addbad', name, kind, pos], 'kind': 'callback', 'k': None,
+                             'then': ['add', name, 'xml']})
+                ncorr += 1
     res = run_driver('drv_store.py', jobs, timeout=3000)
     recs = []
     for j, r in zip(jobs, res):
